@@ -9,11 +9,10 @@ package mp4
 //@   loop 1 invariant 0 <= i && i <= 3 && adv(sw, 14 + 2*i)
 
 // ---------------------------------------------------------------- sidx
-// FINDING: DecodeSidxSR (sidx.go:72-88) accepts any version byte; for Version >= 2 Size() adds 8*Version bytes while EncodeSW
-// writes the 64-bit layout (8 extra bytes) only. The property holds for Version <= 1 only.
-//@ pred boxOK@SidxBox(b *SidxBox) = b.Version <= 1
+// no representation invariant needed (since the repair of Size(), sidx.go:122-129, every non-zero version counts the 64-bit
+// layout, as DecodeSidxSR sidx.go:80-86 and EncodeSW sidx.go:151-157 do)
 //@ func (*SidxBox).EncodeSW
-//@   loop 1 invariant adv(sw, 32 + 8*int(b.Version) + 12*idx(1))
+//@   loop 1 invariant adv(sw, ite(b.Version == 0, 32, 40) + 12*idx(1))
 
 // ---------------------------------------------------------------- silb
 // silbOff(es, n, base): base plus the encoded size of the first n entries (one addend per entry, in the shape used by Size()).
@@ -71,11 +70,9 @@ package mp4
 //@   loop 1 invariant adv(sw, 20 + 4*idx(1))
 
 // ---------------------------------------------------------------- subs
-// FINDING: DecodeSubsSR (subs.go:71-99) accepts any version byte and, like EncodeSW, uses 32-bit subsample sizes only for
-// version == 1 (16-bit otherwise), while Size() uses 16-bit sizes only for version == 0. For Version >= 2 Size() is 2 bytes per
-// subsample larger than what EncodeSW writes. The property holds for Version <= 1 only.
-//@ pred boxOK@SubsBox(b *SubsBox) = b.Version <= 1
-//@ spec rec subsOff(es []SubsEntry, n int, ver byte, base int) int = ite(n <= 0, base, subsOff(es, n-1, ver, base) + ite(ver == 0, 6 + len(es[n-1].SubSamples)*8, 6 + len(es[n-1].SubSamples)*10))
+// no representation invariant needed (since the repair of Size() 32-bit subsample sizes are counted for version 1 only, as in
+// DecodeSubsSR and EncodeSW)
+//@ spec rec subsOff(es []SubsEntry, n int, ver byte, base int) int = ite(n <= 0, base, subsOff(es, n-1, ver, base) + ite(ver != 1, 6 + len(es[n-1].SubSamples)*8, 6 + len(es[n-1].SubSamples)*10))
 //@ func (*SubsBox).Size
 //@   pure
 //@   ensures result == uint64(subsOff(b.Entries, len(b.Entries), b.Version, 16))
@@ -87,20 +84,16 @@ package mp4
 //@   loop 1 invariant sw.(*bits.FixedSliceWriter).accError == nil ==> old(sw.(*bits.FixedSliceWriter).accError) == nil && sw.(*bits.FixedSliceWriter).off == subsOff(b.Entries, idx(1), b.Version, old(sw.(*bits.FixedSliceWriter).off) + 16)
 //@   loop 1 invariant subsOff(b.Entries, idx(1), b.Version, old(sw.(*bits.FixedSliceWriter).off) + 16) == old(sw.(*bits.FixedSliceWriter).off) + subsOff(b.Entries, idx(1), b.Version, 16)
 //@   loop 2 invariant idx(1) < len(b.Entries) && idx(2) <= len(e.SubSamples) && len(e.SubSamples) == len(b.Entries[idx(1)].SubSamples)
-//@   loop 2 invariant sw.(*bits.FixedSliceWriter).accError == nil ==> old(sw.(*bits.FixedSliceWriter).accError) == nil && sw.(*bits.FixedSliceWriter).off == subsOff(b.Entries, idx(1), b.Version, old(sw.(*bits.FixedSliceWriter).off) + 16) + ite(b.Version == 0, 6 + idx(2)*8, 6 + idx(2)*10)
+//@   loop 2 invariant sw.(*bits.FixedSliceWriter).accError == nil ==> old(sw.(*bits.FixedSliceWriter).accError) == nil && sw.(*bits.FixedSliceWriter).off == subsOff(b.Entries, idx(1), b.Version, old(sw.(*bits.FixedSliceWriter).off) + 16) + ite(b.Version != 1, 6 + idx(2)*8, 6 + idx(2)*10)
 //@   loop 2 invariant subsOff(b.Entries, idx(1), b.Version, old(sw.(*bits.FixedSliceWriter).off) + 16) == old(sw.(*bits.FixedSliceWriter).off) + subsOff(b.Entries, idx(1), b.Version, 16)
 
 // ---------------------------------------------------------------- tenc
 // DecodeTencSR (tenc.go:55) sets DefaultKID = UUID(sr.ReadBytes(16)): 16 bytes whenever the decoder succeeds.
-// FINDING (constructor path): InitProtect (crypto.go:350-360) stores the caller's kid without checking len(kid) == 16; Size()
-// counts 16 bytes for the KID, EncodeSW writes len(DefaultKID) bytes.
+// Constructor path: InitProtect rejects a kid that is not 16 bytes (crypto.go:303-305) before storing it in tenc.DefaultKID.
 //@ pred boxOK@TencBox(b *TencBox) = len(b.DefaultKID) == 16
 
 // ---------------------------------------------------------------- tfdt
-// FINDING: DecodeTfdtSR / DecodeTfdt (tfdt.go:25-57) accept any version byte; Size() = 16 + 4*Version, EncodeSW writes 16 bytes
-// for Version == 0 and 20 bytes otherwise. The property holds for Version <= 1 only (CreateTfdt and SetBaseMediaDecodeTime,
-// tfdt.go:60-86, only produce 0 or 1).
-//@ pred boxOK@TfdtBox(b *TfdtBox) = b.Version <= 1
+// no representation invariant needed (since the repair of Size() every non-zero version counts the 64-bit time, as decoder and EncodeSW do)
 
 // ---------------------------------------------------------------- tfra
 // DecodeTfraSR (tfra.go:51-53) masks the three length-size fields with 0x3; Entries gets exactly nrEntries (a uint32) elements
@@ -158,11 +151,8 @@ package mp4
 //@   ensures tfraK(b, false, 9) ==> result == 24 + uint64(entryCount)*20
 
 // ---------------------------------------------------------------- tkhd
-// FINDING: DecodeTkhdSR (tkhd.go:51-81) accepts any version byte and uses the 64-bit layout only for version == 1, as does
-// Size() (104 for Version == 1, else 92); EncodeSW uses the 32-bit layout only for Version == 0 and writes 104 bytes for every
-// other version. For Version >= 2 EncodeSW writes 104 bytes while Size() is 92. The property holds for Version <= 1 only
-// (CreateTkhd, tkhd.go:31-37, sets Version 0).
-//@ pred boxOK@TkhdBox(b *TkhdBox) = b.Version <= 1
+// no representation invariant needed (since the repair of EncodeSW the 64-bit layout is written for version 1 only, as in
+// DecodeTkhdSR and Size())
 
 // ---------------------------------------------------------------- tref type boxes (hint, cdsc, ...)
 // DecodeTrefTypeSR (tref.go:96-99) takes Name from the box header, whose name has 4 bytes (hdrOK, established by DecodeHeaderSR).
@@ -171,11 +161,10 @@ package mp4
 //@   loop 1 invariant adv(sw, 8 + 4*idx(1))
 
 // ---------------------------------------------------------------- unknown boxes
-// DecodeUnknownSR (unknown.go:34-36) stores hdr.Name (4 bytes by hdrOK), hdr.Size and the hdr.Size-hdr.Hdrlen payload bytes.
-// FINDING: for a box with a 16-byte header (32-bit size field 1, 64-bit largesize) the decoder keeps size = hdr.Size but EncodeSW
-// always writes an 8-byte header, i.e. size-8 bytes in total. The invariant below is established by the decoder only for
-// hdr.Hdrlen == 8; CreateUnknownBox (unknown.go:29-31) leaves it to the caller.
-//@ pred boxOK@UnknownBox(b *UnknownBox) = len(b.name) == 4 && b.size == 8 + uint64(len(b.notDecoded))
+// DecodeUnknownSR (unknown.go:35-38) stores hdr.Name (4 bytes by hdrOK), hdr.Size, the hdr.Size-hdr.Hdrlen payload bytes and
+// largeSize = (hdr.Hdrlen == 16); EncodeSW (unknown.go:67-74) writes a 16-byte header exactly when largeSize is set.
+// CreateUnknownBox (unknown.go:30-32) sets largeSize = false and leaves "size == 8 + len(payload)" to the caller (documented there).
+//@ pred boxOK@UnknownBox(b *UnknownBox) = len(b.name) == 4 && b.size == ite(b.largeSize, uint64(16), uint64(8)) + uint64(len(b.notDecoded))
 
 // ---------------------------------------------------------------- mdat
 // mdatOff(ps, n, base): base plus the lengths of the first n data parts.
